@@ -12,8 +12,22 @@
 //! (implicit parameter threading), all in/out/inout signatures over <= 3 parameters with aliasing, swizzle and array
 //! element arguments (out-parameter trampolines).
 //!
+//! List positions: the only mention of a static global / the only call of a function that needs one / the only call in
+//! the module of a function with inout parameters (aliased arguments) sits at element k of n (n <= 3 quick, <= 4 thorough,
+//! every k) of every list-like construct (declarators of a `for` init declaration and of a local declaration, call /
+//! constructor / intrinsic arguments, flat / nested / struct aggregate entries, comma operands, switch arms, else-if bodies
+//! and conditions, block statements, ?: and binary operands, subscripts) and at every single-expression statement part,
+//! inside every statement context (quick: 8 contexts; thorough: also every nesting of two), observed through every call
+//! graph over three functions.
+//!
+//! Function-local statics (functions with state): every type class x every place of the definition x declarator k of n,
+//! observed through every sequence shape of <= 3 (thorough 4) calls inside one evaluation; initialisers are constant
+//! expressions only, so when the initialisation happens cannot be observed.
+//!
 //! Signature vocabulary: `meaning|msl|<same classes as C01>`, `meaning|msl|decl|global-threading`,
-//! `meaning|msl|decl|out-signature|<modes>`.
+//! `meaning|msl|decl|out-signature|<modes>`,
+//! `meaning|msl|decl|{global-list-position,call-list-position,sole-inout-call-position,sole-inout-call-of-global-position}|<construct>|{only,first,later}`,
+//! `meaning|msl|decl|{static-local,static-local-const}|<place of the definition>`.
 
 use super::c01::{self, Backend, Case, Opts};
 use crate::engine::*;
@@ -131,6 +145,354 @@ fn out_signature_programs() -> Vec<c01::Space> {
     out
 }
 
+// ---------------------------------------------------------------------------------------------
+// list positions: the k-th element of every list-like construct, in every statement context
+//
+// The usage analysis behind the implicit global parameters and behind the out-parameter trampolines walks statements and
+// expressions; everything that holds a *list* of sub-parts (declarators of one declaration, arguments, aggregate entries,
+// operands of a comma, arms of a selection, statements of a block) can be walked incompletely. The spaces below put the
+// only mention of a global / the only call of a function at element k of n of every such construct (all n <= N, all k < n,
+// the other elements are literals), inside every statement context, and observe the function through every call graph.
+
+struct ListPos {
+    /// construct class; becomes part of the signature
+    class: String,
+    /// "only" (n = 1), "first" (k = 0 of several) or "later" (k > 0)
+    index: &'static str,
+    /// statements with `$E` at the position; they add to `r`
+    stmts: String,
+}
+
+fn index_class(k: usize, n: usize) -> &'static str {
+    if n == 1 {
+        "only"
+    } else if k == 0 {
+        "first"
+    } else {
+        "later"
+    }
+}
+
+/// helpers used by the positions (none of them touches a global)
+fn list_helpers(max_n: usize) -> String {
+    let mut s = String::new();
+    for n in 1..=max_n.max(4) {
+        let params: Vec<String> = (0..n).map(|j| format!("int a{}", j)).collect();
+        let sum: Vec<String> = (0..n).map(|j| format!("a{} * {}", j, j + 1)).collect();
+        s.push_str(&format!("int h{}({}) {{ return {}; }}\n", n, params.join(", "), sum.join(" + ")));
+        let members: String = (0..n).map(|j| format!("int m{}; ", j)).collect();
+        s.push_str(&format!("struct AG{} {{ {}}};\n", n, members));
+    }
+    s
+}
+
+fn list_positions(max_n: usize) -> Vec<ListPos> {
+    let mut v: Vec<ListPos> = Vec::new();
+    let e = "($E & 3)";
+    // element list with the expression at k and literals elsewhere
+    let elems = |n: usize, k: usize| -> Vec<String> { (0..n).map(|j| if j == k { e.to_string() } else { format!("{}", j + 1) }).collect() };
+    let weighted = |names: &[String]| -> String { names.iter().enumerate().map(|(j, nm)| format!("{} * {}", nm, j + 1)).collect::<Vec<_>>().join(" + ") };
+    for n in 1..=max_n {
+        for k in 0..n {
+            let ix = index_class(k, n);
+            let es = elems(n, k);
+            let d: Vec<String> = (0..n).map(|j| format!("d{}", j)).collect();
+            let decls: Vec<String> = (0..n).map(|j| format!("d{} = {}", j, es[j])).collect();
+            v.push(ListPos { class: "for-init-declarator".into(), index: ix, stmts: format!("for (int {}; d0 < 5; d0++) {{ r += {}; }}", decls.join(", "), weighted(&d)) });
+            v.push(ListPos { class: "local-declarator".into(), index: ix, stmts: format!("int {}; r += {};", decls.join(", "), weighted(&d)) });
+            v.push(ListPos { class: "call-argument".into(), index: ix, stmts: format!("r += h{}({});", n, es.join(", ")) });
+            let q: Vec<String> = (0..n).map(|j| format!("q[{}]", j)).collect();
+            v.push(ListPos { class: "aggregate-entry".into(), index: ix, stmts: format!("int q[{}] = {{ {} }}; r += {};", n, es.join(", "), weighted(&q)) });
+            let m: Vec<String> = (0..n).map(|j| format!("s.m{}", j)).collect();
+            v.push(ListPos { class: "struct-aggregate-entry".into(), index: ix, stmts: format!("AG{} s = {{ {} }}; r += {};", n, es.join(", "), weighted(&m)) });
+            for row in 0..2usize {
+                let lits: Vec<String> = (0..n).map(|j| format!("{}", j + 5)).collect();
+                let rows = if row == 0 { [es.join(", "), lits.join(", ")] } else { [lits.join(", "), es.join(", ")] };
+                let cells: Vec<String> = (0..2).flat_map(|a| (0..n).map(move |b| format!("q[{}][{}]", a, b))).collect();
+                v.push(ListPos { class: "nested-aggregate-entry".into(), index: if row == 1 { "later" } else if n == 1 { "first" } else { ix }, stmts: format!("int q[2][{}] = {{ {{ {} }}, {{ {} }} }}; r += {};", n, rows[0], rows[1], weighted(&cells)) });
+            }
+            if n >= 2 {
+                v.push(ListPos { class: "comma-operand".into(), index: ix, stmts: format!("r += ({});", es.join(", ")) });
+                // n - 1 cases and a default arm
+                let mut arms = String::new();
+                for j in 0..n {
+                    let body = if j == k { format!("r += {};", e) } else { format!("r += {};", j + 1) };
+                    if j + 1 < n {
+                        arms.push_str(&format!("case {}: {} break; ", j, body));
+                    } else {
+                        arms.push_str(&format!("default: {} break; ", body));
+                    }
+                }
+                v.push(ListPos { class: "switch-arm".into(), index: ix, stmts: format!("switch (x & 3) {{ {}}}", arms) });
+            }
+            // statements of a block
+            let sts: String = (0..n).map(|j| if j == k { format!("r += {}; ", e) } else { format!("r += {}; ", j + 1) }).collect();
+            v.push(ListPos { class: "block-statement".into(), index: ix, stmts: format!("{{ {}}}", sts) });
+            // else-if chains: the body and the condition of arm k
+            let mut chain = String::new();
+            let mut chain_c = String::new();
+            for j in 0..n {
+                let kw = if j == 0 { "if" } else { "else if" };
+                chain.push_str(&format!("{} ((x & 3) == {}) {{ r += {}; }} ", kw, j, if j == k { e.to_string() } else { format!("{}", j + 1) }));
+                chain_c.push_str(&format!("{} ({} == {}) {{ r += {}; }} ", kw, if j == k { e } else { "(x & 3)" }, j, j + 1));
+            }
+            v.push(ListPos { class: "else-if-body".into(), index: ix, stmts: chain });
+            v.push(ListPos { class: "else-if-condition".into(), index: ix, stmts: chain_c });
+        }
+    }
+    // constructors: always up to four components
+    for n in 1..=4usize {
+        for k in 0..n {
+            let es = elems(n, k);
+            if n == 1 {
+                v.push(ListPos { class: "constructor-argument".into(), index: "only", stmts: format!("int w = int({}); r += w;", es[0]) });
+            } else {
+                let comps: Vec<String> = ["w.x", "w.y", "w.z", "w.w"][..n].iter().map(|c| c.to_string()).collect();
+                v.push(ListPos { class: "constructor-argument".into(), index: index_class(k, n), stmts: format!("int{} w = int{}({}); r += {};", n, n, es.join(", "), weighted(&comps)) });
+            }
+        }
+    }
+    // intrinsics of one, two and three arguments
+    v.push(ListPos { class: "intrinsic-argument".into(), index: "only", stmts: format!("r += abs({});", e) });
+    for k in 0..2 {
+        let es = elems(2, k);
+        v.push(ListPos { class: "intrinsic-argument".into(), index: index_class(k, 2), stmts: format!("r += min({}, {}) + max({}, {}) * 3;", es[0], es[1], es[0], es[1]) });
+    }
+    for k in 0..3 {
+        let es: Vec<String> = (0..3).map(|j| if j == k { e.to_string() } else { ["2", "0", "7"][j].to_string() }).collect();
+        v.push(ListPos { class: "intrinsic-argument".into(), index: index_class(k, 3), stmts: format!("r += clamp({}, {}, {});", es[0], es[1], es[2]) });
+    }
+    // operands of the selection and of a binary operator
+    v.push(ListPos { class: "ternary-operand".into(), index: "first", stmts: format!("r += ({} & 1) != 0 ? 2 : 3;", e) });
+    v.push(ListPos { class: "ternary-operand".into(), index: "later", stmts: format!("r += (x & 1) != 0 ? {} : 3;", e) });
+    v.push(ListPos { class: "ternary-operand".into(), index: "later", stmts: format!("r += (x & 1) != 0 ? 2 : {};", e) });
+    v.push(ListPos { class: "binary-operand".into(), index: "first", stmts: format!("r += {} * 5 - 1;", e) });
+    v.push(ListPos { class: "binary-operand".into(), index: "later", stmts: format!("r += 7 - {};", e) });
+    v.push(ListPos { class: "subscript-index".into(), index: "first", stmts: format!("int g2[2][4] = {{ {{ 1, 2, 3, 4 }}, {{ 5, 6, 7, 8 }} }}; r += g2[{} & 1][x & 3];", e) });
+    v.push(ListPos { class: "subscript-index".into(), index: "later", stmts: format!("int g2[2][4] = {{ {{ 1, 2, 3, 4 }}, {{ 5, 6, 7, 8 }} }}; r += g2[x & 1][{}];", e) });
+    // the parts of the statements that hold exactly one expression
+    for (class, stmts) in [
+        ("expression-statement", "r += $E;"),
+        ("if-condition", "if ($E > 1) r += 1;"),
+        ("while-condition", "int n = 0; while (n < 3 && $E > n) { n++; } r += n;"),
+        ("do-condition", "int n = 0; do { n++; } while (n < $E); r += n;"),
+        ("for-init-expression", "int i; for (i = $E; i < 4; i++) r += i + 1;"),
+        ("for-condition", "for (int i = 0; i < $E; i++) r += i + 1;"),
+        ("for-increment", "for (int i = 0; i < 3; i += 1 + ($E & 1)) r += 1;"),
+        ("switch-selector", "switch ($E & 1) { case 0: r += 5; break; default: r += 7; break; }"),
+        ("array-index", "r += t[$E];"),
+        ("array-index-store", "t[$E] = x; r += t[0] + t[1] * 2 + t[2] * 3 + t[3] * 4;"),
+        ("cast-operand", "r += (int)(float)$E;"),
+        ("unary-operand", "r -= -$E;"),
+        ("short-circuit-right", "if (x > 100 || $E > 1) r += 3;"),
+        ("swizzle-base", "r += int3($E, 2, 3).zx.y;"),
+        ("member-base", "AG2 s = { 1, 2 }; s.m1 = $E; r += s.m0 + s.m1 * 2;"),
+    ] {
+        v.push(ListPos { class: class.into(), index: "only", stmts: stmts.replace("$E", e) });
+    }
+    v.push(ListPos { class: "return-expression".into(), index: "only", stmts: "return r + $E;".replace("$E", e) });
+    v
+}
+
+/// statement contexts around the position: (name, text with `$S`)
+fn statement_contexts(depth2: bool) -> Vec<(String, String)> {
+    let base: Vec<(&str, &str)> = vec![
+        ("plain", "$S"),
+        ("block", "{ $S }"),
+        ("if-body", "if (x < 1000) { $S }"),
+        ("else-body", "if (x > 1000) { r += 1; } else { $S }"),
+        ("for-body", "for (int o = 0; o < 2; o++) { $S }"),
+        ("while-body", "int o = 0; while (o < 2) { o++; $S }"),
+        ("do-body", "int o = 0; do { o++; $S } while (o < 2);"),
+        ("switch-body", "switch (x & 1) { case 0: { $S break; } default: { r += 2; $S } }"),
+    ];
+    let mut out: Vec<(String, String)> = base.iter().map(|(n, t)| (n.to_string(), t.to_string())).collect();
+    if depth2 {
+        for (on, ot) in &base[1..] {
+            for (inn, it) in &base[1..] {
+                // the inner loop counters are renamed so that both levels can be loops
+                let inner = it.replace("int o", "int o2").replace("o++", "o2++").replace("o < 2", "o2 < 2");
+                out.push((format!("{}>{}", on, inn), ot.replace("$S", &inner)));
+            }
+        }
+    }
+    out
+}
+
+fn in_function(name: &str, body: &str, extra: &str, tail: &str) -> String {
+    format!("int {}(int x) {{ int t[4] = {{ 1, 2, 3, 4 }}; int r = x; {} {} return r{}; }}\n", name, body, extra, tail)
+}
+
+/// G: c0 mentions the global only at the position, c1 / c2 reach it through every DAG over the three functions;
+/// C: c0 needs the global, c1 calls c0 only at the position, c2 calls c1 directly / at the same position / not at all;
+/// T: the only call of a function with two inout parameters in the whole module sits at the position, both arguments name
+///    the same local (the result of the callee tells copy-in/copy-out from binding both references to one object, whatever
+///    the order of the copy-out); T2: the only call passes the global the callee itself modifies.
+fn list_position_programs(thorough: bool) -> Vec<c01::Space> {
+    let max_n = if thorough { 4 } else { 3 };
+    let positions = list_positions(max_n);
+    let contexts = statement_contexts(thorough);
+    let helpers = list_helpers(max_n);
+    let wrappers = |tag: &str| -> Vec<Case> { (0..3).map(|k| Case { src: format!("int @(int x) {{ return c{}(x); }}", k), tag: tag.to_string() }).collect() };
+    let mut out = Vec::new();
+    for (cname, ctext) in &contexts {
+        let deep = cname.contains('>');
+        for p in &positions {
+            let body = |expr: &str| ctext.replace("$S", &p.stmts.replace("$E", expr));
+            // the signature names the construct and the index class; the statement context is visible in the detail
+            let class = format!("{}|{}", p.class, p.index);
+            let uniq = format!("{}_{}_{}", out.len(), class, cname);
+            // G
+            let edge_sets: Vec<u32> = if deep { vec![7] } else { (0..8).collect() };
+            for edges in &edge_sets {
+                let mut prelude = String::from("static int GA = 1;\nstatic int GB = 2;\n");
+                prelude.push_str(&helpers);
+                prelude.push_str(&in_function("c0", &body("GA"), "", ""));
+                prelude.push_str(&format!("int c1(int x) {{ int r = x; {} return r; }}\n", if edges & 1 == 1 { "r = r * 3 + c0(x + 1);" } else { "" }));
+                prelude.push_str(&format!("int c2(int x) {{ int r = x;{}{} return r; }}\n", if edges & 2 == 2 { " r = r * 3 + c0(x + 2);" } else { "" }, if edges & 4 == 4 { " r = r * 5 + c1(x + 3);" } else { "" }));
+                out.push(c01::Space { name: format!("glist_{}_{}", uniq, edges), prelude, cases: wrappers(&format!("decl|global-list-position|{}", class)) });
+            }
+            // C
+            let forms: Vec<(usize, bool)> = if deep { vec![(2, false)] } else { (0..3).flat_map(|f| [false, true].into_iter().map(move |t| (f, t))).collect() };
+            for (c2_form, c1_touches) in forms {
+                let mut prelude = String::from("static int GA = 1;\nstatic int GB = 2;\n");
+                prelude.push_str(&helpers);
+                prelude.push_str("int c0(int x) { GA += x + 1; return GA * 2 + x; }\n");
+                prelude.push_str(&in_function("c1", &body("c0(x + 1)"), if c1_touches { "GB += 3;" } else { "" }, ""));
+                match c2_form {
+                    0 => prelude.push_str("int c2(int x) { int r = x; return r; }\n"),
+                    1 => prelude.push_str("int c2(int x) { int r = x; r = r * 5 + c1(x + 3); return r; }\n"),
+                    _ => prelude.push_str(&in_function("c2", &body("c1(x + 2)"), "", "")),
+                }
+                out.push(c01::Space { name: format!("clist_{}_{}_{}", uniq, c2_form, c1_touches), prelude, cases: wrappers(&format!("decl|call-list-position|{}", class)) });
+            }
+            // T: the function under test holds the only call
+            let mut prelude = helpers.clone();
+            prelude.push_str("int al(inout int a, inout int b) { a += 1; int k = b; b = a; return k; }\n");
+            let src = format!("int @(int x) {{ int t[4] = {{ 1, 2, 3, 4 }}; int y = x & 15; int r = x; {} return r + y * 7; }}", body("al(y, y)"));
+            out.push(c01::Space { name: format!("tlist_{}", uniq), prelude, cases: vec![Case { src, tag: format!("decl|sole-inout-call-position|{}", class) }] });
+            // T2: the only call passes the global that the callee modifies itself
+            let mut prelude = String::from("static int GA = 1;\n");
+            prelude.push_str(&helpers);
+            prelude.push_str("int ag(inout int p) { p += 1; GA += 10; return p; }\n");
+            let src = format!("int @(int x) {{ int t[4] = {{ 1, 2, 3, 4 }}; int r = x; {} return r; }}", body("ag(GA)"));
+            out.push(c01::Space { name: format!("t2list_{}", uniq), prelude, cases: vec![Case { src, tag: format!("decl|sole-inout-call-of-global-position|{}", class) }] });
+        }
+    }
+    out
+}
+
+// ---------------------------------------------------------------------------------------------
+// function-local statics: functions with state, observed over sequences of calls inside one evaluation
+//
+// A function with a mutable `static` local returns something different on its second call; one call of it can not tell a
+// static from an ordinary local. Every program below holds one such function (every type class x every place where the
+// definition can stand x which declarator of the definition it is) and is observed through every call sequence shape of
+// up to L calls inside one evaluation (state starts afresh with every evaluation: S9 applied to locals).
+
+/// (type class, type after `static`, declarator with initialiser, update statement, observation as int, is_const)
+fn static_local_types() -> Vec<(&'static str, &'static str, &'static str, &'static str, &'static str, bool)> {
+    vec![
+        ("int", "int", "s = 3", "s += x + 1;", "s", false),
+        ("uint", "uint", "s = 3u", "s = s * 2u + (uint)(x & 7);", "(int)(s & 0xffffu)", false),
+        ("float", "float", "s = 0.5f", "s = s * 2.0f + (float)(x & 7);", "(int)s", false),
+        ("bool", "bool", "s = false", "s = !s;", "(s ? 1 : 0)", false),
+        ("vector", "int3", "s = int3(1, 2, 3)", "s.y += x & 7; s.xz = s.zx;", "(s.x * 100 + s.y * 10 + s.z)", false),
+        ("array", "int", "s[2] = { 1, 2 }", "s[x & 1] += 1;", "(s[0] * 10 + s[1])", false),
+        ("struct", "AG2", "s = { 1, 2 }", "s.m0 += x & 7; s.m1 += s.m0;", "(s.m0 * 100 + s.m1)", false),
+        ("const-int", "const int", "s = 3", "", "(s + (x & 7))", true),
+        ("const-array", "const int", "s[2] = { 4, 5 }", "", "s[x & 1]", true),
+    ]
+}
+
+/// places where the definition can stand: (name, function body with `$D` the definition, `$U` the update and `$O` the observation)
+fn static_local_places() -> Vec<(&'static str, &'static str)> {
+    vec![
+        ("function-top", "$D $U r = $O;"),
+        ("nested-block", "{ $D $U r = $O; }"),
+        ("if-body", "if ((x & 1) == 0) { $D $U r = $O; } else { r = 1; }"),
+        ("loop-body", "for (int k = 0; k < 2; k++) { $D $U r = r * 3 + $O; }"),
+        ("while-body", "int k = 0; while (k < 2) { k++; $D $U r = r * 3 + $O; }"),
+        ("switch-body", "switch (x & 1) { case 0: { $D $U r = $O; break; } default: { r = 2; } }"),
+        ("after-early-return", "if (x == 7) return 9; $D $U r = $O;"),
+        ("after-use-of-argument", "int y = x + 1; r = y; $D $U r += $O;"),
+    ]
+}
+
+/// the call sequence shapes over a stateful function `tick`, a second one `tock` with statics of the same names and
+/// `via` that calls `tick`: 1..=max_calls successive calls, the same number of calls from a loop, every interleaving of
+/// tick / tock and of direct / indirect calls of that length, a call in the argument of a call, equal arguments twice.
+/// The signature names the place of the definition only; the shape of the sequence is visible in the detail.
+fn call_sequences(max_calls: usize, tag: &str) -> Vec<Case> {
+    let mut cases = Vec::new();
+    let mut add = |src: String| cases.push(Case { src, tag: tag.to_string() });
+    for n in 1..=max_calls {
+        let calls: String = (0..n).map(|i| format!("r = r * 31 + tick(x + {}); ", i)).collect();
+        add(format!("int @(int x) {{ int r = 0; {}return r; }}", calls));
+        if n >= 2 {
+            add(format!("int @(int x) {{ int r = 0; for (int i = 0; i < {}; i++) {{ r = r * 31 + tick(x + i); }} return r; }}", n));
+            for (other, lo, hi) in [("tock", 1u32, (1u32 << n) - 1), ("via", 1u32, 1u32 << n)] {
+                for code in lo..hi {
+                    let calls: String = (0..n).map(|i| format!("r = r * 31 + {}(x + {}); ", if code >> i & 1 == 1 { other } else { "tick" }, i)).collect();
+                    add(format!("int @(int x) {{ int r = 0; {}return r; }}", calls));
+                }
+            }
+        }
+    }
+    add("int @(int x) { return tick(tick(x) & 7); }".into());
+    add("int @(int x) { int a = tick(x); int b = tick(x); return a == b ? 1 : 2; }".into());
+    cases
+}
+
+fn static_local_programs(thorough: bool) -> Vec<c01::Space> {
+    let max_calls = if thorough { 4 } else { 3 };
+    let mut out = Vec::new();
+    for (tname, ty, declarator, update, obs, is_const) in static_local_types() {
+        for (pname, place) in static_local_places() {
+            // the observed static is declarator k of n of its definition (the other one is a second static of the same type)
+            for n in 1..=2usize {
+                for k in 0..n {
+                    let other = declarator.replacen('s', "o", 1);
+                    let list = if n == 1 { declarator.to_string() } else if k == 0 { format!("{}, {}", declarator, other) } else { format!("{}, {}", other, declarator) };
+                    let def = format!("static {} {};", ty, list);
+                    let body = place.replace("$D", &def).replace("$U", update).replace("$O", obs);
+                    let mut prelude = String::from("struct AG2 { int m0; int m1; };\n");
+                    prelude.push_str(&format!("int tick(int x) {{ int r = 0; {} return r; }}\n", body));
+                    prelude.push_str(&format!("int tock(int x) {{ int r = 0; {} return r + 1; }}\n", body));
+                    prelude.push_str("int via(int x) { return tick(x) + 1000; }\n");
+                    let tag = format!("decl|{}|{}", if is_const { "static-local-const" } else { "static-local" }, pname);
+                    out.push(c01::Space { name: format!("static_local_{}_{}_{}of{}", tname, pname, k, n), prelude, cases: call_sequences(max_calls, &tag) });
+                }
+            }
+        }
+    }
+    // the static of a for-init definition (the loop variable keeps its value: the second call does not loop again)
+    for n in 1..=2usize {
+        for k in 0..n {
+            let list = if n == 1 { "i = 0".to_string() } else if k == 0 { "i = 0, o = 5".to_string() } else { "o = 5, i = 0".to_string() };
+            let mut prelude = String::from("struct AG2 { int m0; int m1; };\n");
+            let body = format!("for (static int {}; i < 2 + (x & 1); i++) {{ r = r * 3 + i + 1{}; }}", list, if n == 2 { " + o++" } else { "" });
+            prelude.push_str(&format!("int tick(int x) {{ int r = 0; {} return r; }}\n", body));
+            prelude.push_str(&format!("int tock(int x) {{ int r = 0; {} return r + 1; }}\n", body));
+            prelude.push_str("int via(int x) { return tick(x) + 1000; }\n");
+            out.push(c01::Space { name: format!("static_local_for_init_{}of{}", k, n), prelude, cases: call_sequences(max_calls, "decl|static-local|for-init") });
+        }
+    }
+    // two statics in one function, a static next to a static global (threaded as a parameter), a static in a method
+    for (name, funcs) in [
+        ("two-statics", "int tick(int x) { static int a = 1; static int b = 10; a += x & 3; b += a; return a * 100 + b; }\nint tock(int x) { static int a = 2; static int b = 20; b -= 1; a += b; return a + b; }\n"),
+        ("shadowing-static", "int tick(int x) { static int s = 1; s += 1; int r = s; { static int s = 100; s += x & 3; r += s; } return r; }\nint tock(int x) { int s = 5; { static int s = 7; s++; x += s; } return x + s; }\n"),
+        ("static-and-global", "static int GA = 1;\nint tick(int x) { static int s = 1; s += GA; GA += x & 3; return s * 10 + GA; }\nint tock(int x) { static int s = 2; GA += s; s += 1; return GA; }\n"),
+        ("static-in-method", "struct SM { int v; int tk(int x) { static int s = 0; s += x & 3; v += s; return v; } };\nint tick(int x) { SM a; a.v = 1; SM b; b.v = 100; int p = a.tk(x); int q = b.tk(x); return p * 7 + q + a.v; }\nint tock(int x) { SM c; c.v = x & 3; return c.tk(1) + c.tk(2); }\n"),
+        ("static-initialised-from-static-const", "static const int K = 4;\nint tick(int x) { static int s = K * 2; s += x & 3; return s; }\nint tock(int x) { static int s = K; s *= 2; return s; }\n"),
+        ("static-passed-as-inout", "void bump(inout int v, int d) { v += d; }\nint tick(int x) { static int s = 1; bump(s, x & 3); bump(s, 1); return s; }\nint tock(int x) { static int3 s = int3(1, 2, 3); bump(s.y, 2); return s.y + x; }\n"),
+    ] {
+        let prelude = format!("{}int via(int x) {{ return tick(x) + 1000; }}\n", funcs);
+        out.push(c01::Space { name: format!("static_local_{}", name), prelude, cases: call_sequences(max_calls, &format!("decl|static-local|{}", name)) });
+    }
+    out
+}
+
 pub fn run(ctx: &Ctx) -> i32 {
     let mut rep = Report::new("exploration");
     rep.rule = "a function counts when the type checker accepted it, the Metal generator produced a syntax tree without a diagnostic and at least one argument tuple was evaluated by both interpreters; distinct = different (prelude, function source)".into();
@@ -157,9 +519,20 @@ pub fn run(ctx: &Ctx) -> i32 {
     let graphs = if ctx.quick() { call_graph_programs(3, 2) } else { call_graph_programs(4, 3) };
     rep.cov("call_graph_programs", Json::Int(graphs.len() as i64));
     c01::run_programs(ctx, "call_graphs", &graphs, &backends, &opts, &mut rep);
+    // the k-th element of every list-like construct x statement contexts x call graphs (globals, calls, sole inout calls)
+    let lists = list_position_programs(!ctx.quick());
+    rep.cov("list_position_programs", Json::Int(lists.len() as i64));
+    c01::run_programs(ctx, "list_positions", &lists, &backends, &opts, &mut rep);
+    // functions with static locals x call sequences inside one evaluation
+    let statics = static_local_programs(!ctx.quick());
+    rep.cov("static_local_programs", Json::Int(statics.len() as i64));
+    rep.cov("static_local_call_sequences_per_program", Json::Int(statics.first().map(|s| s.cases.len()).unwrap_or(0) as i64));
+    c01::run_programs(ctx, "static_locals", &statics, &backends, &opts, &mut rep);
     rep.cov("targets", Json::Arr(vec!["Msl (no-pipeline mode)".into()]));
     rep.assumptions.push("Metal semantics are those of exec::c_interp in its Metal dialect over the generator's syntax tree (references bind the argument object, metal:: spellings mapped by an independently written table, tag-dispatched trampoline overloads selected by arity); nothing checks that the text is accepted by a real Metal compiler".into());
     rep.assumptions.push("same value grid, the same skipping of cases that are unspecified in the source, and the same shared semantic decisions S1-S11 as C01; double is excluded (Metal rejects it), programs the Metal backend rejects with a diagnostic are outside the property and counted (export_rejected)".into());
+    rep.assumptions.push("function-local statics: one object per definition and evaluation, initialised when the definition is first executed and kept from one call to the next (both interpreters; S9 applied to locals); only constant initialisers are generated, uninitialised statics and statics in templates are outside the space".into());
+    rep.assumptions.push("aliased inout arguments (one local passed to two inout parameters) are only generated with a callee whose return value and final parameter values do not depend on the order of the copy-out".into());
     rep.assumptions.push("globals are matched by name between the source and the Metal tree; a global that a function does not receive keeps its initial value on the Metal side".into());
     finish(ctx, rep)
 }
